@@ -17,6 +17,9 @@ import os
 import pipeline as pl
 import checks_codec as cc
 
+# TLC workers of the generator runs (trace validation always runs one worker per shard)
+TLC_WORKERS = min(pl.NPROC, int(os.environ.get('VERIF_TLC_WORKERS', str(pl.NPROC))))
+
 ASSUMPTIONS = [
     'TLC and SANY are correct; the transcription of X.690 8.1 (identifier, length, end-of-contents), 8.6.4, '
     '8.7.3, 8.23.6 (constructed strings) and 8.11/8.12 (SET order) in spec/X690.tla, spec/TlvRewrite.tla and '
@@ -100,30 +103,44 @@ def fixture_cases(run):
     return out
 
 
+def small(cases, cap):
+    """cases whose descriptor + values are small (bounds the size of the TLV trees; selection only)"""
+    return [c for c in cases if len(json.dumps([c['env'], c['vals']])) <= cap]
+
+
 def c04(tier, seed):
     run = pl.Run('C04', tier, seed)
     try:
         if tier == 'quick':
-            cases = typegen(run, [(1, False, ['E', 'A'], None), (3, True, ['I'], 'num=60')], 'g')
-            plans = [('bfs1', rewrite_cfg(1, False, 14), None, None),
-                     ('bfs2', rewrite_cfg(2, False, 2), None, None),
-                     ('sim', rewrite_cfg(10, True, 14), 'num=150', 11)]
+            shallow = typegen(run, [(1, False, ['E', 'A'], None)], 'g')
+            deep = small(typegen(run, [(3, True, ['I', 'E'], 'num=12')], 's'), 2500)[:150]
+            # (plan name, cases, R, all cut points, values per case, simulate, depth)
+            plans = [('bfs1', shallow + deep, 1, False, 14, None, None),
+                     ('bfs2', shallow, 2, False, 2, None, None),
+                     ('bfs3', [c for c in shallow if c['depth'] == 0], 3, False, 2, None, None),
+                     ('sim', shallow + deep, 10, True, 14, 'num=150', 11)]
             fx_plans = [('fxsim', rewrite_cfg(8, True, 1), 'num=12', 9)]
         else:
-            cases = typegen(run, [(2, False, ['E', 'I', 'A'], None), (1, True, ['E', 'A'], None),
-                                  (5, True, ['E', 'I', 'A'], 'num=1500')], 'g')
-            plans = [('bfs1', rewrite_cfg(1, True, 14), None, None),
-                     ('bfs2', rewrite_cfg(2, False, 2), None, None),
-                     ('sim', rewrite_cfg(12, True, 14), 'num=6000', 13)]
+            shallow = typegen(run, [(1, True, ['E', 'A'], None), (1, False, ['I'], None)], 'g')
+            deep = small(typegen(run, [(2, False, ['E', 'I', 'A'], None), (5, True, ['E', 'I', 'A'], 'num=400')], 's'), 4000)
+            plans = [('bfs1', shallow + deep, 1, True, 14, None, None),
+                     ('bfs2', shallow, 2, False, 4, None, None),
+                     ('bfs3', [c for c in shallow if c['depth'] == 0], 3, False, 4, None, None),
+                     ('sim', shallow + deep, 12, True, 14, 'num=4000', 13)]
             fx_plans = [('fxbfs1', rewrite_cfg(1, False, 1), None, None),
                         ('fxsim', rewrite_cfg(12, True, 1), 'num=150', 13)]
+        cases = unique_cases(shallow + deep)
         cpath = run.path('cases.ndjson')
         pl.write_cases(cases, cpath)
         outs = []
-        for name, cfg, sim, depth in plans:
-            out, res = pl.tlc_generate(run, 'TlvRewrite', cfg, 'var_%s.ndjson' % name, workers=pl.NPROC,
-                                       simulate=sim, depth=depth, env={'CASES_FILE': cpath}, timeout=3000,
-                                       what='TlvRewrite %s (ModelOk on every variant)' % name)
+        for name, sub, steps, cuts, mv, sim, depth in plans:
+            sub = unique_cases(sub)
+            spath = run.path('cases_%s.ndjson' % name)
+            pl.write_cases(sub, spath)
+            out, res = pl.tlc_generate(run, 'TlvRewrite', rewrite_cfg(steps, cuts, mv), 'var_%s.ndjson' % name,
+                                       workers=TLC_WORKERS, simulate=sim, depth=depth, env={'CASES_FILE': spath},
+                                       timeout=3000, what='TlvRewrite %s: %d cases, R=%d (ModelOk on every variant)'
+                                       % (name, len(sub), steps))
             outs.append(out)
         nvar = merge_lines(outs, run.path('variants.ndjson'))
         shards = pl.drive(run, 'drive_rewrite.py', cpath, 'trace', ['--variants', run.path('variants.ndjson')])
@@ -135,7 +152,7 @@ def c04(tier, seed):
             pl.write_cases(fx, fpath)
             fouts = []
             for name, cfg, sim, depth in fx_plans:
-                out, res = pl.tlc_generate(run, 'TlvRewrite', cfg, 'var_%s.ndjson' % name, workers=pl.NPROC,
+                out, res = pl.tlc_generate(run, 'TlvRewrite', cfg, 'var_%s.ndjson' % name, workers=TLC_WORKERS,
                                            simulate=sim, depth=depth, env={'CASES_FILE': fpath}, timeout=3000,
                                            what='TlvRewrite %s on fixture encodings' % name)
                 fouts.append(out)
@@ -177,10 +194,10 @@ def c04(tier, seed):
 # ----------------------------------------------------------------------------------------
 # C15
 
-def probe_cfg(mode, classes, seed, max_vals):
-    return ('SPECIFICATION Spec\nCONSTANTS\n  Mode = "%s"\n  Classes = {%s}\n  Seed = %d\n  Dense = 300\n  MaxVals = %d\n'
-            'INVARIANT ProbeOk\nINVARIANT Emit\nPROPERTY Monotone\nCHECK_DEADLOCK FALSE\n'
-            % (mode, ', '.join('"%s"' % c for c in classes), seed, max_vals))
+def probe_cfg(mode, classes, seed, max_vals, max_len=70000):
+    return ('SPECIFICATION Spec\nCONSTANTS\n  Mode = "%s"\n  Classes = {%s}\n  Seed = %d\n  MaxLen = %d\n  Dense = 300\n'
+            '  MaxVals = %d\nINVARIANT ProbeOk\nINVARIANT Emit\nPROPERTY Monotone\nCHECK_DEADLOCK FALSE\n'
+            % (mode, ', '.join('"%s"' % c for c in classes), seed % 1000000, max_len, max_vals))
 
 
 def c15(tier, seed):
@@ -198,15 +215,15 @@ def c15(tier, seed):
         empty = run.path('empty.ndjson')
         open(empty, 'w').close()
         out_a, _ = pl.tlc_generate(run, 'LengthProbe', probe_cfg('abs', classes, seed, max_vals), 'msgs_abs.ndjson',
-                                   workers=pl.NPROC, env={'CASES_FILE': empty}, timeout=3000,
+                                   workers=TLC_WORKERS, env={'CASES_FILE': empty}, timeout=3000,
                                    what='LengthProbe abstract messages (ProbeOk, Monotone on every prefix state)')
         out_t, _ = pl.tlc_generate(run, 'LengthProbe', probe_cfg('typed', classes, seed, max_vals), 'msgs_typed.ndjson',
-                                   workers=pl.NPROC, env={'CASES_FILE': cpath}, timeout=3000,
+                                   workers=TLC_WORKERS, env={'CASES_FILE': cpath}, timeout=3000,
                                    what='LengthProbe typed messages (ProbeOk, Monotone on every prefix state)')
         nmsg = merge_lines([out_a, out_t], run.path('msgs.ndjson'))
         shards = pl.drive(run, 'drive_probe.py', cpath, 'trace', ['--msgs', run.path('msgs.ndjson')])
-        cfg = ('SPECIFICATION TraceSpec\nCONSTANTS\n  Mode = "trace"\n  Classes = {}\n  Seed = %d\n  Dense = 300\n'
-               '  MaxVals = 0\nPOSTCONDITION TraceAccepted\nCHECK_DEADLOCK FALSE\n' % seed)
+        cfg = ('SPECIFICATION TraceSpec\nCONSTANTS\n  Mode = "trace"\n  Classes = {}\n  Seed = %d\n  MaxLen = 0\n  Dense = 300\n'
+               '  MaxVals = 0\nPOSTCONDITION TraceAccepted\nCHECK_DEADLOCK FALSE\n' % (seed % 1000000))
         reports = pl.validate(run, 'Trace_Probe', cfg, shards, what='Trace_Probe')
         idx = pl.load_trace_index(shards)
         pl.classify(run, reports, idx, 'C15')
